@@ -34,7 +34,7 @@ fn run(input: &Tree) -> Option<Tree> {
         }
     }
     if kind == 5 {
-        // translated three hundred times while ANOTHER thread keeps translating a genome with one long open block: the
+        // translated again and again (>= 300 times, >= 150 ms) while ANOTHER thread keeps translating a genome with one long open block: the
         // translation of a genome has nothing to do with what other threads translate
         let stop = std::sync::atomic::AtomicBool::new(false);
         let busy: Vec<PushGene> = std::iter::once(PushGene::Instruction(push::instruction::ExecInstruction::when().into()))
@@ -49,9 +49,13 @@ fn run(input: &Tree) -> Option<Tree> {
             });
             let first: Vec<PushProgram> = plushy.clone().into();
             let mut same = true;
-            for _ in 0..300 {
+            // at least 300 times and for at least 150 ms (the other thread must really be at work meanwhile)
+            let t0 = std::time::Instant::now();
+            let mut k = 0;
+            while k < 300 || t0.elapsed().as_millis() < 150 {
                 let again: Vec<PushProgram> = plushy.clone().into();
                 same &= again == first;
+                k += 1;
             }
             stop.store(true, std::sync::atomic::Ordering::Relaxed);
             same.then_some(first)
